@@ -27,6 +27,27 @@ The library's own translation mechanism is an entry point of its own: the grid o
 ``DatasetModel(grid_offset=-d)`` - must be the base grids moved by d for every d above (mask origin, over sampler,
 padded and blurring grids derived from the moved grid included), also when the move is made in two axis-aligned steps.
 
+Optional behaviour and foreign containers (entry points that do not depend on the masked pixels; they run on the
+frame-level masks of every frame / scale / origin and in the T cases):
+
+* ``Grid2D.grid_2d_radial_projected_from[options]``: the projected centre is dropped or kept, requested by keyword
+  (``remove_projected_centre=True / False`` against the opposite configuration value) and by configuration (keyword
+  ``None``, ``general.grid.remove_projected_centre`` switched on and off inside the case and restored afterwards), at
+  angles 0 and 30, for the generic centre (``shape_slim`` derived and explicit) and for the centres that are EXACTLY
+  (0.0, 0.0) in the frame of origin base + d_k for every translation d_k the configuration can meet (k = 0: the base
+  frame).  All of them are evaluated in every frame, so a pair (base, base + d_j) sees a centre that is exactly zero in
+  the base frame only, one that is exactly zero in the translated frame only (where, at angle 0, it is requested through
+  the default argument), and centres that are zero in neither frame.
+* ``geometry.grid_pixel_indexes_2d_from[containers]`` / ``geometry.scaled_coordinates_2d_from[containers]``: every
+  conversion route of a geometry (``mask.geometry`` and a ``Geometry2D`` built directly; ``grid_pixel_indexes_2d_from``,
+  ``grid_pixel_centres_2d_from``, ``grid_pixels_2d_from``, ``grid_scaled_2d_from``) on the same translated points held in
+  twelve container forms: ``Grid2D`` on an unmasked mask of the geometry's origin / of the base origin, ``Grid2D.no_mask``
+  (native and slim values, default origin, a third origin, the geometry's origin, other shapes and pixel scales),
+  ``Grid2D.from_yx_1d`` (arrays and lists), ``Grid2D.from_yx_2d``, a plain ndarray and a ``Grid2DIrregular`` (both are
+  refused with the same exception type at every origin), plus a ``Grid2D.from_extent`` lattice over a translated extent.
+  The answers must be covariant AND every Grid2D form must give exactly the answer of the first form at every origin
+  (``must`` observations): the geometry's origin decides, never the container's.
+
 Histories inside one structure case (the runner forks a fresh process per chunk, so they cannot span cases):
 
 * the base origin is always evaluated first and the translated origins afterwards, so a process-global memo keyed
@@ -64,6 +85,9 @@ RULE = (
     "(one zero component, equal components, pixel-scale multiples, minus the origin, beyond the frame) rotating over "
     "entry points and cases; the entry points include the library's own translation mechanism (Grid2D.subtracted_from "
     "and FitDataset.grids with DatasetModel.grid_offset, offset = -d applied to the structures of the base origin); "
+    "the radial projection is also driven through its optional centre removal (keyword and configuration, both values) "
+    "with centres exactly (0,0) in the base frame / in a translated frame / in neither, and every conversion route of a "
+    "geometry meets the translated points inside twelve container forms that carry their own origin (all forms must agree); "
     "T = every entry point x every special translation class on a few masks per frame; M = mapper cases (mask subset x sub-size "
     "scheme x scale x origin; rectangular meshes of two shapes and a Delaunay mesh on jittered source points in "
     "general position); H = Hilbert image-mesh cases on circular masks (radius x scale x origin).  Every S case also "
@@ -95,6 +119,16 @@ ASSUMPTIONS = [
     "circular radii >=1e-6 from every pixel-centre radius, Hilbert adapt images additive-separable g(row)+h(col) "
     "on an unmasked array so that linear interpolation does not depend on which diagonal Qhull picks for the "
     "co-circular lattice squares",
+    "radial projections from the exactly-zero centres: a centre whose longest y and x arms tie while the pixel scales differ "
+    "is skipped (rounding picks the step), one whose arm / pixel-scale ratio is within 1e-5 relative of an integer is "
+    "requested with an explicit shape_slim (round(ratio)+1) instead of the derived one; general.grid.remove_projected_centre "
+    "is switched by item assignment on the loaded configuration section (the object the library reads) and restored in a "
+    "finally block; the radial projection and the geometry conversion routes depend on the frame (shape, pixel scales, "
+    "origin) only, so they run on the frame-level masks",
+    "a Grid2D handed to a Geometry2D conversion route is only a container of (y,x) values: the result is defined by the "
+    "geometry's shape, pixel scales and origin and is wrapped in the container's mask unchanged; containers holding the "
+    "same points therefore give bit-identical values; Grid2D.from_extent lattices are laid over extents whose 3x4 points "
+    "are >=0.02 pixel from every pixel boundary",
     "mapper source-plane coordinates are multiples of 2^-20 so dyadic translations are exact in floating point",
     "rows of mapper index/weight tables are compared as sets of (pixel index, weight) pairs (vertex order inside "
     "a Delaunay simplex carries no meaning)",
@@ -111,7 +145,11 @@ BOUNDS = {
     "quick": "S: all 511 masks of a 3x3 free block x 5 frames (5x5 centred, 6x7 and 7x6 off-centre, 3x3 and 4x5 "
     "frame-touching); on the 5x5 frame all 3 pixel-scale pairs x 2 base origins, on the other frames two of the six "
     "combinations rotating with the mask (every frame sees every combination); x 4 translations; 37 entry-point "
-    "classes (42 entry-point functions) each (the 11 that do not depend on which pixels are masked only on 9 masks per frame/scale/origin); "
+    "classes (45 entry-point functions) each (the 14 that do not depend on which pixels are masked only on 9 masks per frame/scale/origin); "
+    "among them the radial projection with centre removal requested 4 ways (keyword on/off against the opposite configuration, "
+    "configuration on/off) x 2 angles x up to 19 centres (generic x 2 shape_slim forms, exactly (0,0) in the frame of origin "
+    "base+d_k for the 17 translations of the configuration), and 4 conversion routes x 2 geometries x 12 container forms of "
+    "one point per pixel (+4 off-frame points in the slim forms) + a 3x4 from_extent lattice; "
     "+ per S case one special-structure translation (12 classes rotating) for every mask-independent entry point and "
     "for a third of the other 31 entry-point functions; the entry points include subtracted_from / "
     "FitDataset.grids used as the translation by d of base-origin structures, and (on a quarter of the masks) a "
@@ -284,6 +322,11 @@ class Obs:
     def close(self, name, val):
         self.items.append((name, "close", np.array(val, dtype=float)))
 
+    def must(self, name, cond):
+        """A relation between results at ONE origin that has to hold at every origin (e.g. two container forms of the
+        same points give the same answer)."""
+        self.items.append((name, "must", np.array(bool(cond))))
+
     def sub(self, name, fn):
         """Run a sub-observation; an exception becomes an observable of its own."""
         try:
@@ -327,9 +370,11 @@ class Once:
         self.ok(False, finding, msg)
 
 
-def compare(v, finding, A, B, d, tol, labels=("base", "translated")):
+def compare(v, finding, A, B, d, tol, labels=("base", "translated"), relations=True):
     """A, B: Obs (or exception type name) of the entry point at origin o and at o+d (d = 0: two evaluations at the
-    same origin that must agree; `labels` names them in the message)."""
+    same origin that must agree; `labels` names them in the message).  relations=False: a "must" observation is only
+    required to be the same on both sides (used where two evaluations at one origin are compared: whether the relation
+    holds is judged where base and translated origins are compared)."""
     if isinstance(A, str) or isinstance(B, str):
         sa = A if isinstance(A, str) else "no exception"
         sb = B if isinstance(B, str) else "no exception"
@@ -359,6 +404,8 @@ def compare(v, finding, A, B, d, tol, labels=("base", "translated")):
         elif kind == "close":
             err = np.abs(b - a)
             good = bool(np.all((err <= 1e-9 * (1.0 + np.abs(a))) | (np.isnan(a) & np.isnan(b))))
+        elif kind == "must" and relations:
+            good = bool(a.all()) and bool(b.all())
         elif a.dtype == b.dtype and a.tobytes() == b.tobytes():
             good = True
         else:
@@ -373,7 +420,7 @@ def compare(v, finding, A, B, d, tol, labels=("base", "translated")):
             % (
                 finding,
                 name,
-                {"coord": "must shift by d", "extent": "must shift by d", "close": "must be unchanged", "same": "must be identical"}[kind],
+                {"coord": "must shift by d", "extent": "must shift by d", "close": "must be unchanged", "same": "must be identical", "must": "must hold at every origin"}[kind],
                 list(d),
                 labels[0],
                 _short(a),
@@ -427,6 +474,60 @@ def radial_centre(H, W, ps, rg):
     raise RuntimeError("no tie-free radial centre")
 
 
+def radial_form(H, W, ps, c_rel):
+    """How a radial projection from the centre `c_rel` (relative to the origin of an HxW frame) can be requested free of
+    floating-point ties.  "skip": the longest arm along y and along x tie while the pixel scales differ (which scale
+    steps the radii is decided by rounding); an int: the arm / pixel-scale ratio is (nearly) an integer, so the number
+    of radii the library would derive is decided by rounding and is handed over explicitly (shape_slim=) instead;
+    None: no tie, shape_slim is left to the library."""
+    ay = H * ps[0] / 2.0 + abs(c_rel[0])
+    ax = W * ps[1] / 2.0 + abs(c_rel[1])
+    band = 1e-6 * (1.0 + ax + ay)
+    if abs(ax - ay) <= band:
+        if ps[0] != ps[1]:
+            return "skip"
+        ratio = max(ax, ay) / ps[0]
+    else:
+        ratio = ay / ps[0] if ay > ax else ax / ps[1]
+    frac = ratio % 1.0
+    if min(frac, 1.0 - frac) <= 1e-5 * (1.0 + ratio):
+        return int(round(ratio)) + 1
+    return None
+
+
+def lattice_extent(H, W, ps):
+    """(x0, x1, y0, y1) relative to the origin such that no point of the 3x4 lattice Grid2D.from_extent lays over it is
+    within 0.02 pixel of a pixel boundary of the HxW frame (first hit of a fixed menu)."""
+    for k in range(200):
+        t = 0.013 * k
+        ext = ((-0.43 - t) * W * ps[1], (0.37 + t / 5.0) * W * ps[1], (-0.41 + t / 3.0) * H * ps[0], (0.46 - t) * H * ps[0])
+        ys = np.linspace(ext[3], ext[2], 3)
+        xs = np.linspace(ext[0], ext[1], 4)
+        fy = (H * ps[0] / 2.0 - ys) / ps[0]
+        fx = (xs + W * ps[1] / 2.0) / ps[1]
+        f = np.concatenate([fy, fx])
+        if np.all(np.abs(f - np.round(f)) >= 0.02) and ext[0] < ext[1] and ext[2] < ext[3]:
+            return ext
+    raise RuntimeError("no tie-free lattice extent")
+
+
+# a container origin that is neither (0,0) nor an origin any case evaluates a geometry at
+CONTAINER_ORIGIN = (-3.25, 2.5)
+
+
+def set_remove_projected_centre(flag):
+    """Switch general.grid.remove_projected_centre in the running process (item assignment on the loaded section: the
+    object Grid2D.grid_2d_radial_projected_from reads when the keyword is None); returns the previous value."""
+    from autoconf import conf
+
+    sec = conf.instance["general"]["grid"]
+    old = sec["remove_projected_centre"]
+    sec["remove_projected_centre"] = bool(flag)
+    if bool(conf.instance["general"]["grid"]["remove_projected_centre"]) != bool(flag):
+        raise RuntimeError("harness: cannot switch general.grid.remove_projected_centre")
+    return old
+
+
 class Ctx:
     """Everything that defines one S configuration *relative to the origin*."""
 
@@ -469,6 +570,30 @@ class Ctx:
         self.d = (0.0, 0.0)
         self.fi, self.bits = fi, bits
         self.cache = {}
+        self.lattice_rel = lattice_extent(self.H, self.W, self.ps)
+
+    def translations(self):
+        """Every translation a case of this configuration can meet: none, the generic menu, the special classes."""
+        return [(0.0, 0.0)] + [_t(d) for d in D_MENU] + special_translations(self.ps, self.o, self.H, self.W)
+
+    def radial_centres(self):
+        """Centres (relative to the origin) of the radial-projection options entry point: (tag, c_rel, shape_slim).
+
+        generic : the tie-free random centre of the configuration, shape_slim left to the library and given explicitly;
+        zero@k  : the centre that is EXACTLY (0.0, 0.0) in the frame whose origin is base + d_k, for every translation
+                  d_k the configuration can meet (k = 0: the base frame itself) - in every other frame of the case it is
+                  the generic point d_j - d_k.  Evaluated in every frame of the case, so each pair (base, base + d_j)
+                  sees a centre that is exactly zero in the base frame only, one that is exactly zero in the translated
+                  frame only, and centres that are zero in neither."""
+        out = [("generic", self.radial_c, None), ("generic,shape_slim=3", self.radial_c, 3)]
+        for k, d in enumerate(self.translations()):
+            ok = add(self.o, d)
+            c_rel = (0.0 - ok[0], 0.0 - ok[1])
+            form = radial_form(self.H, self.W, self.ps, c_rel)
+            if form == "skip":
+                continue
+            out.append(("zero@origin+d%d%s" % (k, "" if form is None else ",shape_slim=%d" % form), c_rel, form))
+        return out
 
 
 class _Mode:
@@ -758,6 +883,30 @@ def s_entry_points(aa):
                     np.array(g.grid_2d_radial_projected_from(centre=c, angle=ang, remove_projected_centre=rem)),
                 )
 
+    @ep("Grid2D.grid_2d_radial_projected_from", frame=True, key="Grid2D.grid_2d_radial_projected_from[options]")
+    def _(ob, cx, o):
+        # optional behaviour (dropping the projected centre) switched by keyword and by configuration, for centres that
+        # are exactly (0.0, 0.0) in this frame, exactly (0.0, 0.0) in another frame of the case, or generic.  The
+        # projection depends on the frame (extent, pixel scales) only, not on which pixels are masked.
+        g = gr(cx, o)
+        old = set_remove_projected_centre(False)
+        try:
+            for tag, c_rel, shape_slim in cx.radial_centres():
+                c = add(o, c_rel)
+                for ang in (0.0, 30.0):
+                    kw = {"angle": ang}
+                    if shape_slim is not None:
+                        kw["shape_slim"] = shape_slim
+                    if not (c == (0.0, 0.0) and ang == 0.0):
+                        kw["centre"] = c  # else: the default argument, which IS the centre (0.0, 0.0)
+                    # (keyword, configuration): the keyword wins over the configuration, None defers to it
+                    for mode, rem, cfg in (("kw=False/cfg=True", False, True), ("kw=True/cfg=False", True, False), ("kw=None/cfg=True", None, True), ("kw=None/cfg=False", None, False)):
+                        set_remove_projected_centre(cfg)
+                        name = "%s,angle%d,remove_centre:%s" % (tag, ang, mode)
+                        ob.sub(name, lambda: ob.coord(name, np.array(g.grid_2d_radial_projected_from(remove_projected_centre=rem, **kw))))
+        finally:
+            set_remove_projected_centre(old)
+
     @ep("image_mesh.Overlay")
     def _(ob, cx, o):
         for shp in cx.overlay_shapes:
@@ -947,6 +1096,112 @@ def s_entry_points(aa):
         ob.same("util.centres", aa.util.geometry.grid_pixel_centres_2d_slim_from(grid_scaled_2d_slim=pts.copy(), **kw))
         ob.close("util.pixels(float)", aa.util.geometry.grid_pixels_2d_slim_from(grid_scaled_2d_slim=pts.copy(), **kw))
 
+    # ---- the same points in containers that carry an origin of their OWN: every conversion route of a geometry must
+    # use the geometry's origin, whatever the container says, and all container forms must give identical answers
+    def containers(cx, o, native, extra):
+        """The points `native` ([H, W, 2]; `extra` [4, 2] more for the slim forms) in every container form:
+        (tag, builder, is Grid2D, number of leading points shared with the reference form)."""
+        H, W = cx.H, cx.W
+        n = H * W
+        slim = native.reshape(-1, 2)
+        more = np.concatenate([slim, extra])
+
+        def full(oo):
+            return aa.Mask2D.all_false(shape_native=(H, W), pixel_scales=cx.ps, origin=org(oo))
+
+        return [
+            ("Grid2D(mask=own)", lambda: aa.Grid2D(values=native.copy(), mask=full(o))),
+            ("Grid2D(mask=of-base-origin)", lambda: aa.Grid2D(values=native.copy(), mask=full(cx.o))),
+            ("Grid2D.no_mask[native]", lambda: aa.Grid2D.no_mask(values=native.copy(), pixel_scales=cx.ps)),
+            ("Grid2D.no_mask[native,origin=other]", lambda: aa.Grid2D.no_mask(values=native.copy(), pixel_scales=cx.ps, origin=org(CONTAINER_ORIGIN))),
+            ("Grid2D.no_mask[slim,1xN]", lambda: aa.Grid2D.no_mask(values=more.copy(), shape_native=(1, n + 4), pixel_scales=1.0)),
+            ("Grid2D.no_mask[slim,origin=own]", lambda: aa.Grid2D.no_mask(values=slim.copy(), shape_native=(H, W), pixel_scales=cx.ps, origin=org(o))),
+            ("Grid2D.from_yx_1d", lambda: aa.Grid2D.from_yx_1d(y=more[:, 0].copy(), x=more[:, 1].copy(), shape_native=(n + 4, 1), pixel_scales=(2.0, 0.5))),
+            ("Grid2D.from_yx_1d[lists,origin=other]", lambda: aa.Grid2D.from_yx_1d(y=slim[:, 0].tolist(), x=slim[:, 1].tolist(), shape_native=(W, H), pixel_scales=cx.ps, origin=org(CONTAINER_ORIGIN))),
+            ("Grid2D.from_yx_2d", lambda: aa.Grid2D.from_yx_2d(y=native[:, :, 0].copy(), x=native[:, :, 1].copy(), pixel_scales=cx.ps)),
+            ("Grid2D.from_yx_2d[origin=other]", lambda: aa.Grid2D.from_yx_2d(y=native[:, :, 0].copy(), x=native[:, :, 1].copy(), pixel_scales=0.25, origin=org(CONTAINER_ORIGIN))),
+            ("ndarray", lambda: slim.copy()),
+            ("Grid2DIrregular", lambda: aa.Grid2DIrregular(values=slim.copy())),
+        ]
+
+    def routes_on_containers(ob, cx, o, geos, routes, forms):
+        """Every route of every geometry on every container form.  Observed: the values (kind given by the route), the
+        mask the result is wrapped in (the container's, whose origin does not move unless the container is built on the
+        translated origin), and that every Grid2D form gives exactly the values of the first form."""
+        n = cx.H * cx.W
+        for gtag, geo in geos:
+            for route, arg, kind in routes:
+                ref = None
+                for tag, build in forms:
+                    name = "%s.%s(%s)" % (gtag, route, tag)
+
+                    def one(tag=tag, build=build, name=name):
+                        nonlocal ref
+                        res = getattr(geo, route)(**{arg: build()})
+                        vals = np.array(res.slim)
+                        getattr(ob, kind)(name, vals)
+                        ob.same(name + ".mask", np.array(res.mask))
+                        ob.same(name + ".mask.pixel_scales", res.mask.pixel_scales)
+                        if "own" in tag:
+                            ob.coord(name + ".mask.origin", res.mask.origin)
+                        else:
+                            ob.same(name + ".mask.origin", res.mask.origin)
+                        if ref is None:
+                            ref = vals[:n].copy()
+                        else:
+                            ob.must(name + " == the same points in " + forms[0][0], vals.shape[1:] == ref.shape[1:] and np.array_equal(vals[:n], ref))
+
+                    ob.sub(name, one)
+
+    SCALED_ROUTES = [
+        ("grid_pixel_indexes_2d_from", "grid_scaled_2d", "same"),
+        ("grid_pixel_centres_2d_from", "grid_scaled_2d", "same"),
+        ("grid_pixels_2d_from", "grid_scaled_2d", "close"),
+    ]
+
+    def geometries(cx, o):
+        return [
+            ("mask.geometry", mk(cx, o).geometry),
+            ("Geometry2D", aa.Geometry2D(shape_native=cx.m.shape, pixel_scales=cx.ps, origin=o)),
+        ]
+
+    @ep("geometry.grid_pixel_indexes_2d_from", frame=True, key="geometry.grid_pixel_indexes_2d_from[containers]")
+    def _(ob, cx, o):
+        sh = np.array(o)
+        forms = [(t, b) for t, b in containers(cx, o, cx.pts_rel + sh, cx.far_rel + sh)]
+        routes_on_containers(ob, cx, o, geometries(cx, o), SCALED_ROUTES, forms)
+        # a regular lattice laid over a translated extent (Grid2D.from_extent: its mask always has origin (0,0))
+        x0, x1, y0, y1 = cx.lattice_rel
+        ext = (x0 + o[1], x1 + o[1], y0 + o[0], y1 + o[0])
+        lattice = aa.Grid2D.from_extent(extent=ext, shape_native=(3, 4))
+        pts = np.array(lattice.native)
+        lforms = [
+            ("Grid2D.no_mask[lattice points,origin=own]", lambda: aa.Grid2D.no_mask(values=pts.copy(), pixel_scales=cx.ps, origin=org(o))),
+            ("Grid2D.from_extent", lambda: aa.Grid2D.from_extent(extent=ext, shape_native=(3, 4))),
+        ]
+        for gtag, geo in geometries(cx, o):
+            for route, arg, kind in SCALED_ROUTES:
+                ref = None
+                for tag, build in lforms:
+                    name = "%s.%s(%s)" % (gtag, route, tag)
+                    res = getattr(geo, route)(**{arg: build()})
+                    vals = np.array(res.slim)
+                    getattr(ob, kind)(name, vals)
+                    if ref is None:
+                        ref = vals
+                    else:
+                        ob.must(name + " == the same points in " + lforms[0][0], np.array_equal(vals, ref))
+
+    @ep("geometry.scaled_coordinates_2d_from", frame=True, key="geometry.scaled_coordinates_2d_from[containers]")
+    def _(ob, cx, o):
+        # pixel coordinates do not move with the origin; the containers' own origins must play no role either
+        native = cx.pix_pts.reshape(cx.H, cx.W, 2)
+        extra = np.array([[-1.3, 0.2], [cx.H + 0.7, 0.3], [0.3, cx.W + 2.2], [0.2, -1.4]])
+        forms = [(t, b) for t, b in containers(cx, o, native, extra)]
+        routes_on_containers(ob, cx, o, geometries(cx, o), [("grid_scaled_2d_from", "grid_pixels_2d", "coord")], forms)
+
+    # keep the positions of the older entry points in the list (special_plan rotates over them by position)
+    E["Grid2D.grid_2d_radial_projected_from[options]"] = E.pop("Grid2D.grid_2d_radial_projected_from[options]")
     return E
 
 
@@ -982,7 +1237,7 @@ def nd_selected(fi, bits, si, oi):
 def _agree(v, name, A, B, tol):
     """True iff two observation lists of one entry point at the SAME origin are identical (checks are counted)."""
     probe = V(ID)
-    compare(Once(probe), name, A, B, (0.0, 0.0), tol)
+    compare(Once(probe), name, A, B, (0.0, 0.0), tol, relations=False)
     v.v.checks += probe.checks
     return not probe.violations
 
@@ -1082,9 +1337,9 @@ def nd_pass(v, cx, E, o3, ref):
             MODE.mutated()
             MODE.shared = keep
             if not _agree(v, finding, ref[k], alone, tol):
-                compare(v, finding + ":ndarray-origin-differs", ref[k], alone, (0.0, 0.0), tol, labels=("tuple origin", "same origin as float ndarray"))
+                compare(v, finding + ":ndarray-origin-differs", ref[k], alone, (0.0, 0.0), tol, labels=("tuple origin", "same origin as float ndarray"), relations=False)
             else:
-                compare(v, finding + ":after-read", ref[k], got, (0.0, 0.0), tol, labels=("objects built for this call", "shared objects whose properties were read before"))
+                compare(v, finding + ":after-read", ref[k], got, (0.0, 0.0), tol, labels=("objects built for this call", "shared objects whose properties were read before"), relations=False)
     finally:
         MODE.set()
 
